@@ -155,7 +155,13 @@ class FlowFields(ImageBatch):
             torch.tensor_split,
             Tensor.tensor_split,
         ):
-            return tuple(cls._torch_function_result(func, res, grid, axes) for res in data)
+            if grid and isinstance(grid[0], Grid):
+                grid = [grid] * len(data)  # not split along batch dimension
+            if grid is None or len(grid) != len(data):
+                raise AssertionError("expected one group of sampling grids for each split result")
+            return tuple(
+                cls._torch_function_result(func, res, g, axes) for res, g in zip(data, grid)
+            )
         return cls._torch_function_result(func, data, grid, axes)
 
     @overload
